@@ -4,7 +4,7 @@ from vrun import Job, classify_stderr
 import vbuild
 
 LEVEL = 'exploration'
-RULE = ('12 libFuzzer targets (clang: coverage-guided fuzzer + ASan + UBSan, T0 stack-bound hook H2 armed): TLS client/server engines before '
+RULE = ('13 libFuzzer targets (clang: coverage-guided fuzzer + ASan + UBSan, T0 stack-bound hook H2 armed): TLS client/server engines before '
         'keys (bytes -> engine, buffer layout/size/key kind/client-auth from the first byte), TLS client/server after the handshake (input is a '
         'script of records sealed with the peer\'s real keys by the independent record layer, restored from a snapshot per input), X.509 validator '
         '(static and dynamic anchors, name elements), certificate decoder, private/public key decoders, PEM decoder, ECDSA converters and verifiers, '
@@ -27,7 +27,7 @@ PARALLEL = 12
 TARGETS = [  # name, quick runs, max_len
     ('client_pre', 7000, 20000), ('server_pre', 9000, 8000), ('client_post', 30000, 4000), ('server_post', 30000, 4000),
     ('x509_minimal', 10000, 20000), ('x509_decoder', 30000, 8000), ('skey', 20000, 16000), ('pkey', 20000, 8000),
-    ('pem', 20000, 20000), ('ecdsa', 1200, 600), ('rsa_pub', 2500, 2400), ('ec_pub', 1500, 300),
+    ('pem', 20000, 20000), ('ecdsa', 1200, 600), ('rsa_pub', 2500, 2400), ('ec_pub', 1500, 300), ('lru', 20000, 600),
 ]
 
 
@@ -40,7 +40,7 @@ def jobs(tier, seed):
     js = []
     # corpus replay under MemorySanitizer for the targets that do not call into OpenSSL (uninstrumented)
     msan_bin = vbuild.harness('msan', 'fz_all', ['-lcrypto'])
-    msan_targets = ('x509_minimal', 'x509_decoder', 'skey', 'pkey', 'pem', 'ecdsa', 'rsa_pub', 'ec_pub')
+    msan_targets = ('x509_minimal', 'x509_decoder', 'skey', 'pkey', 'pem', 'ecdsa', 'rsa_pub', 'ec_pub', 'lru')
     for name, runs, maxlen in TARGETS:
         j = Job('fz_' + name, 'fz_all',
                 [name, work, os.path.join(art, name + '-'), runs * mult, seed, maxlen] + ([msan_bin] if name in msan_targets else []),
